@@ -927,19 +927,187 @@ pub fn boundary_edit(rng: &mut Rng, text: &str) -> (std::ops::Range<usize>, Stri
         return arbitrary_edit(rng, text, true);
     }
     let b = *rng.pick(&bounds);
-    let k = b + 1 + rng.below(2);
+    // the first or second token behind the boundary that is not a comment (token parsers skip
+    // comments, so these are the tokens a reused node looks ahead at)
+    let is_comment = |r: &std::ops::Range<usize>| text[r.clone()].starts_with("//");
+    let real: Vec<usize> = (b + 1..toks.len()).filter(|i| !is_comment(&toks[*i])).take(2).collect();
+    let first = real.first().copied();
+    let k = if real.is_empty() { b + 1 } else { *rng.pick(&real) };
     let repl = *rng.pick(&[
         "", "", ";", ":=", "(", ")", "{", "}", "if", "else", "while", "var", "proc", "type", "x", "1", ":", "[", ",",
         "// c\n", "ref",
     ]);
     match toks.get(k) {
-        Some(r) => match rng.below(4) {
+        Some(r) => match rng.below(7) {
             0 => (r.clone(), repl.to_string()),                  // replace the token
             1 => (r.start..r.start, format!("{repl} ")),          // insert before it
             2 => (r.clone(), String::new()),                      // delete it
+            3 if r.len() >= 2 && text.is_char_boundary(r.end - 1) => (r.end - 1..r.end, String::new()), // `:=` -> `:`, `<=` -> `<`, shorter name
+            4 => match first {
+                // a comment between the first and the second token looked ahead at
+                Some(f) => (toks[f].end..toks[f].end, " // between\n".to_string()),
+                None => (r.clone(), String::new()),
+            },
+            5 => (r.end..r.end, "=".to_string()),                 // `:` -> `:=`, `<` -> `<=`
             _ => (toks[b].end..toks[b].end, " // look ahead\n".to_string()), // a comment right behind the boundary
         },
         None => (text.len()..text.len(), repl.to_string()),
+    }
+}
+
+/// A short sequence of edits around one node end: optionally trivia (a comment, a line break)
+/// between the node and the first or second token behind it, then a change of one of these two
+/// tokens (delete, replace, cut or extend by one character, insert in front), optionally undone
+/// again. Each range refers to the text after the preceding edits of the sequence.
+pub fn lookahead_probe(rng: &mut Rng, text: &str) -> Vec<(std::ops::Range<usize>, String)> {
+    let mut out = vec![];
+    let mut cur = text.to_string();
+    let real = real_tokens(&cur);
+    if real.len() < 3 {
+        return vec![arbitrary_edit(rng, text, true)];
+    }
+    // the node end: mostly a closing token, sometimes any token
+    let closers: Vec<usize> = (0..real.len() - 1)
+        .filter(|i| matches!(&cur[real[*i].clone()], ";" | "}" | ")" | "{" | "]"))
+        .collect();
+    let b = if !closers.is_empty() && rng.chance(700) { *rng.pick(&closers) } else { rng.below(real.len() - 1) };
+    let which = if b + 2 < real.len() && rng.chance(650) { b + 2 } else { b + 1 };
+    if rng.chance(600) {
+        let after = if which == b + 2 && rng.chance(600) { b + 1 } else { b };
+        let piece = *rng.pick(&[" // c\n", "\n", " // ä\n", "\n// line\n// line\n", " "]);
+        let at = real[after].end;
+        out.push((at..at, piece.to_string()));
+        cur.insert_str(at, piece);
+    }
+    let real = real_tokens(&cur);
+    let Some(r) = real.get(which).cloned() else { return out };
+    let repl = *rng.pick(&[";", ":=", "(", ")", "{", "}", "if", "else", "while", "var", "proc", "type", "x", "1", ":", "[", ",", "ref", "="]);
+    let old = cur[r.clone()].to_string();
+    let (range, new) = match rng.below(6) {
+        0 => (r.clone(), String::new()),
+        1 => (r.clone(), repl.to_string()),
+        2 if r.len() >= 2 && cur.is_char_boundary(r.end - 1) => (r.end - 1..r.end, String::new()),
+        3 => (r.end..r.end, "=".to_string()),
+        4 => (r.start..r.start, format!("{repl} ")),
+        _ => (r.clone(), String::new()),
+    };
+    let undo = (range.start..range.start + new.len(), cur[range.clone()].to_string());
+    cur.replace_range(range.clone(), &new);
+    out.push((range, new));
+    let _ = old;
+    if rng.chance(400) {
+        out.push(undo);
+    }
+    out
+}
+
+/// Error recovery ends where the next statement or declaration starts, which the parser decides
+/// by looking at up to two tokens (`name :=`, `name (`, `proc`, `type`, `var`, ...). This sequence
+/// puts junk in front of such a start, optionally trivia between its two tokens, then changes
+/// the second (or first) of them, optionally undoes that and removes the junk again.
+pub fn recovery_probe(rng: &mut Rng, text: &str) -> Vec<(std::ops::Range<usize>, String)> {
+    let mut cur = text.to_string();
+    let real = real_tokens(&cur);
+    let is_name = |t: &str| t.chars().next().map_or(false, |c| c.is_ascii_alphabetic() || c == '_');
+    let starts: Vec<usize> = (1..real.len().saturating_sub(1))
+        .filter(|&i| {
+            let (p, t, n) = (&cur[real[i - 1].clone()], &cur[real[i].clone()], &cur[real[i + 1].clone()]);
+            matches!(p, ";" | "{" | "}" | ")") && is_name(t) && (matches!(n, ":=" | "(" | "[") || matches!(t, "proc" | "type" | "var" | "if" | "while"))
+        })
+        .collect();
+    if starts.is_empty() {
+        return lookahead_probe(rng, text);
+    }
+    let i = *rng.pick(&starts);
+    let mut out = vec![];
+    let mut push = |cur: &mut String, r: std::ops::Range<usize>, t: String| {
+        cur.replace_range(r.clone(), &t);
+        out.push((r, t));
+    };
+    // 1. junk in front of the start
+    let junk = *rng.pick(&[") ) ", "] ", "5 ", ", ", "= ", "else ", "of ", ") ", "x y ", "( ", "{ ) "]);
+    let at = real[i].start;
+    push(&mut cur, at..at, junk.to_string());
+    // 2. trivia between the two tokens of the start
+    let real2 = real_tokens(&cur);
+    let j = real2.iter().position(|r| r.start == at + junk.len()).unwrap_or(0);
+    if rng.chance(500) && j < real2.len() {
+        let piece = *rng.pick(&[" // c\n", "\n", " // ä\n", "\n// line\n// line\n"]);
+        let e = real2[j].end;
+        push(&mut cur, e..e, piece.to_string());
+    }
+    // 3. change the second (mostly) or first token of the start
+    let real3 = real_tokens(&cur);
+    let k = if rng.chance(750) { j + 1 } else { j };
+    if let Some(r) = real3.get(k).cloned() {
+        let old = cur[r.clone()].to_string();
+        let (range, new): (std::ops::Range<usize>, String) = match rng.below(5) {
+            0 => (r.clone(), String::new()),
+            1 if r.len() >= 2 && cur.is_char_boundary(r.end - 1) => (r.end - 1..r.end, String::new()),
+            2 => (r.clone(), rng.pick(&["(", ":=", ":", "[", ";", "=", "x"]).to_string()),
+            3 => (r.start..r.start, rng.pick(&["x ", "; ", ") "]).to_string()),
+            _ => (r.clone(), String::new()),
+        };
+        let undo = (range.start..range.start + new.len(), cur[range.clone()].to_string());
+        push(&mut cur, range, new);
+        let _ = old;
+        if rng.chance(500) {
+            push(&mut cur, undo.0, undo.1);
+        }
+    }
+    // 4. the junk goes away again
+    if rng.chance(400) && cur.get(at..at + junk.len()) == Some(junk) {
+        push(&mut cur, at..at + junk.len(), String::new());
+    }
+    out
+}
+
+// ------------------------------------------------------------------------------------------
+// Neighbourhoods of regression scenarios: the same edit on a text that differs in trivia
+// ------------------------------------------------------------------------------------------
+
+fn real_tokens(text: &str) -> Vec<std::ops::Range<usize>> {
+    crude_tokens(text).into_iter().filter(|r| !text[r.clone()].starts_with("//")).collect()
+}
+
+/// Inserts trivia (comment lines, line breaks, blanks) into the token gaps: every gap gets a
+/// piece with a per-call probability, so that combinations of gaps occur.
+pub fn perturb_trivia(rng: &mut Rng, text: &str) -> String {
+    let p = *rng.pick(&[80u32, 250, 500]);
+    let toks = crude_tokens(text);
+    let mut out = String::with_capacity(text.len() * 2);
+    let mut last = 0;
+    for r in &toks {
+        out.push_str(&text[last..r.end]);
+        last = r.end;
+        // never directly behind a comment token without its line end (it would join the comment)
+        let comment_open = text[r.clone()].starts_with("//") && !text[r.clone()].ends_with('\n');
+        if !comment_open && rng.chance(p) {
+            out.push_str(*rng.pick(&[" // c\n", "\n", " ", "\n// line\n", " // ä€\n", "\r\n", "\t", " // x := 1;\n", " // c\n // d\n"]));
+        }
+    }
+    out.push_str(&text[last..]);
+    out
+}
+
+/// Maps an offset of `o` to the corresponding offset of `q`, where `q` has the same sequence of
+/// non-comment tokens as `o` (other trivia in the gaps). Falls back to clamping otherwise.
+pub fn map_offset(o: &str, q: &str, x: usize) -> usize {
+    let (no, nq) = (real_tokens(o), real_tokens(q));
+    if no.len() != nq.len() || no.iter().zip(nq.iter()).any(|(a, b)| o[a.clone()] != q[b.clone()]) {
+        return snap(q, x.min(q.len()));
+    }
+    match no.iter().rposition(|r| r.start <= x) {
+        None => snap(q, x.min(nq.first().map_or(q.len(), |r| r.start))),
+        Some(k) => {
+            if x <= no[k].end {
+                nq[k].start + (x - no[k].start)
+            } else {
+                // in the gap behind token k: the same distance into q's gap, at most to its end
+                let gap_end = nq.get(k + 1).map_or(q.len(), |r| r.start);
+                snap(q, (nq[k].end + (x - no[k].end)).min(gap_end))
+            }
+        }
     }
 }
 
